@@ -71,6 +71,10 @@ def search(blocks_mod, name, ob_name, B=3, timeout_s=20):
     terms, layout = [], []
     for arg, decl in b["contract"]["args"].items():
         v = eng.entry_env[arg]
+        if decl[0] == "opt":
+            layout.append((arg + "__isnone", "flag", 1))
+            terms.append(eng.entry_env[arg + "__isnone"])
+            decl = decl[1]
         if decl[0] == "int":
             layout.append((arg, "int", 1))
             terms.append(v)
@@ -105,7 +109,9 @@ def search(blocks_mod, name, ob_name, B=3, timeout_s=20):
     for arg, kind, n in layout:
         chunk = vals[k:k + n]
         k += n
-        if kind == "int":
+        if kind == "flag":
+            args[arg] = bool(chunk[0])
+        elif kind == "int":
             args[arg] = int(chunk[0])
         elif kind == "arr1":
             ln = max(0, min(cap, int(chunk[0])))
@@ -131,6 +137,11 @@ def replay(blocks_mod, name, args):
     conc = {}
     for arg, decl in contract["args"].items():
         v = args[arg]
+        if decl[0] == "opt":
+            if args.get(arg + "__isnone"):
+                conc[arg] = None
+                continue
+            decl = decl[1]
         if decl[0] == "arr1":
             conc[arg] = np.array(v, dtype=int).reshape(-1)
         elif decl[0] == "arr2":
